@@ -247,7 +247,9 @@ class C11(Prop):
         # round 6
         "sxp_objective_is_neg_loglik", "sxp_rate_is_maximiser", "sxp_rate_closed_form", "weibull_binned_objective_is_neg_loglik", "weibull_cdf_is_distribution_function",
         "gev_fit_post", "gev_objective_is_neg_loglik", "gev_gradient_is_derivative", "sxp_binned_fit_post", "sxp_binned_objective_is_neg_loglik",
-        "gamma_shape_likelihood_equation", "gamma_engine_fixed_point_is_stationary_partial", "gev_censored_objective_is_neg_loglik", "sxp_shape_likelihood_equation", "gev_fit_scale_positive", "gev_censored_gradient_is_derivative", "plot_number_format_rounds_half_even")]
+        "gamma_shape_likelihood_equation", "gamma_engine_fixed_point_is_stationary_partial", "gev_censored_objective_is_neg_loglik", "sxp_shape_likelihood_equation", "gev_fit_scale_positive", "gev_censored_gradient_is_derivative", "plot_number_format_rounds_half_even",
+        # round 6b
+        "exp_tail_fit_is_ml_of_the_raw_tail", "exp_tail_counts_only_the_tail")]
     claimed = True
     technique = ("Lean 4 proof over an executable line-by-line model (numeric class: Float for the bit-exact differential run, Q/R for the theorems) "
                  "+ bit-exact correspondence with the ASan/UBSan-built C code + exact-rational / log-likelihood property monitors")
@@ -263,7 +265,8 @@ class C11(Prop):
                   "Weibull: wei_func is minus the log-likelihood, its partial derivatives, lambda = exp(w) > 0, tau = exp(v) > 0, and the log-likelihood is concave in (tau, tau*log lambda): a "
                   "stationary point is THE global maximum, the only one, and the shortfall of ANY point is bounded by its derivatives (optimality certificate). Truncated Gumbel: tevd_grad is the gradient of "
                   "tevd_func (HasDerivAt, main branches). Gamma: lambda = tau/xbar is the maximiser in lambda for every tau, gam_nll is minus the profile likelihood. "
-                  "Stretched exponential: sxp_complete_func is minus the log-likelihood (with the code's LogGamma), concave in log lambda for every tau, so lambda^tau = n/(tau*sum (x-mu)^tau) "
+                  "Exponential TAIL fit: SetTail(phi) then esl_exp_FitCompleteBinned is the ML fit of exactly the accepted values above the threshold used (N = their number, whatever lies in the bins "
+                  "below; any history). Stretched exponential: sxp_complete_func is minus the log-likelihood (with the code's LogGamma), concave in log lambda for every tau, so lambda^tau = n/(tau*sum (x-mu)^tau) "
                   "is THE maximiser in lambda (closed form, unique). GEV (esl_gev_FitComplete/FitCensored, modelled line by line incl. libm log1p): documented status, gev_func is minus the GEV "
                   "log-likelihood and gev_gradient IS its gradient in (mu, log lambda, alpha) (HasDerivAt, main branch). Binned Weibull: wei_binned_func = -sum obs[b]*log(F(ub)-F(max(lb,mu))), "
                   "F = esl_wei_cdf = the Weibull distribution function. "
@@ -543,6 +546,17 @@ class C11(Prop):
         c.append({"name": "gev-censored-terms-alone", "sticky": 1, "ops": gops})
         c.append({"name": "gev-one-sample-on-mu", "sticky": 1, "ops": ["data xs=" + d(2.0)] + ["gevobj p=%s,%s,%s cens=%d z=3 a=%s" % (d(2.0), d(0.5), d(al), cz, d(1.0))
                                                                                   for al in (1e-14, 0.0, 0.3, -0.2) for cz in (0, 1)]})
+        # round 6b: exponential TAIL fits (SetTail / SetTailByMass, then esl_exp_FitCompleteBinned) with occupied bins below the threshold, thresholds on a
+        # bin boundary / inside a bin / below every value / in the last occupied bin / above every bin (lambda = NaN on both sides), after growth both ways
+        gt = grid("exp", 300, 0.0, 0.5, 1.0)
+        for k, (bmin_, w_) in enumerate(((0.0, 0.25), (2.0, 0.5), (-3.0, 0.3))):
+            for phi_ in (0.0, 1.0, 1.1, 2.0, bmin_ + 7 * w_, max(gt) - 0.01, max(gt) + 5.0, -10.0):
+                c.append({"name": "exp-tail-fit-%d-%g" % (k, phi_), "sticky": 1, "exact": False, "ops": [
+                    "hnew full=%d bmin=%s bmax=%s w=%s" % (k % 2, d(bmin_), d(bmin_ + 4.0), d(w_)), "hadd xs=" + ",".join(d(x) for x in gt[::-1]),
+                    "hadd xs=" + d(-1.0), "hdump", "hsettail phi=" + d(phi_), "hdump", "hexpfit"]})
+            c.append({"name": "exp-tail-fit-%d-bymass" % k, "sticky": 1, "ops": [
+                "hnew full=1 bmin=%s bmax=%s w=%s" % (d(bmin_), d(bmin_ + 4.0), d(w_)), "hadd xs=" + ",".join(d(x) for x in gt),
+                "hsettailmass p=" + d(0.1), "hdump", "hexpfit", "hsettailmass p=" + d(1.0), "hexpfit"]})
         g = grid("exp", 400, 0.0, 0.5, 1.0)
         c.append({"name": "goodness-exp-grid", "sticky": 1, "ops": [
             "hnew full=1 bmin=%s bmax=%s w=%s" % (d(0.0), d(20.0), d(0.25)), "hadd xs=" + ",".join(d(x) for x in g),
@@ -1241,10 +1255,11 @@ class C11(Prop):
         vals = []          # accepted values in order
         done = False
         last_dump = None
+        name = ""
         for op, l in zip(ops[1:], out[1:]):
             if l.startswith(("fault", "atexit")):
                 return None      # reported by the engine as a fault
-            name = op.split()[0]
+            prev_name, name = name, op.split()[0]
             a = kv(op)
             if name == "hadd":
                 xs = parse_xs(a["xs"])
@@ -1357,8 +1372,38 @@ class C11(Prop):
             elif name in ("hexpfit", "hweifit", "hgamfit", "hsxpfit") and case.get("meta", {}).get("binned") and last_dump:
                 f = self.check_binned_fit(name, l, last_dump, case["meta"])
                 if f: return F(f)
+            elif name == "hexpfit" and prev_name == "hdump" and last_dump and last_dump.get("ds") == "virtual" and l.startswith("ok "):
+                # round 6b (theorem exp_tail_fit_is_ml_of_the_raw_tail): a TAIL fit uses exactly the accepted values above the threshold:
+                # location = phi, lambda = (1/w)(log(S + N w) - log S) with N counted on the RAW data, S over the bins cmin..imax
+                f = self.check_exp_tail_fit(l, last_dump, vals)
+                if f: return F(f)
         # cross-op checks that need the dump following a declaration
         return self.check_declarations(ops, out, exact, vals)
+
+    def check_exp_tail_fit(self, l, o, vals):
+        w_ = l.split()
+        try:
+            mu, lam = fbits(w_[1]), fbits(w_[2])
+            phi, bw, bmin = fbits(o["phi"]), fbits(o["w"]), fbits(o["bmin"])
+            cmin, imax = int(o["cmin"]), int(o["imax"])
+        except Exception:
+            return None
+        if w_[1] != o["phi"]: return "exponential tail fit returned mu=%r, the declared threshold is phi=%r" % (mu, phi)
+        N = sum(1 for x in vals if x > phi)
+        S, Nb = 0.0, 0
+        if o["obs"] != "-":
+            for t in o["obs"].split(","):
+                b, c = int(t.split(":")[0]), int(t.split(":")[1])
+                if cmin <= b <= imax: S += c * ((bw * b + bmin) - phi); Nb += c
+        if Nb != N:       # (values within rounding distance of the boundary are layer L0: only flagged when the boundary is not a data value's neighbour)
+            if all(abs(x - phi) > 1e-9 * (abs(phi) + bw) for x in vals): return "tail fit: bins cmin..imax hold %d values, %d accepted values lie above phi=%r" % (Nb, N, phi)
+            return None
+        if N == 0 or not (S > 0.0) or not math.isfinite(S): return None
+        want = (1.0 / bw) * (math.log(S + N * bw) - math.log(S))
+        if not math.isfinite(want): return None
+        if not (abs(lam - want) <= 1e-9 * abs(want) + 1e-300):
+            return "exponential tail fit: lambda=%r, the ML rate of the %d accepted values above phi=%r is %r" % (lam, N, phi, want)
+        return None
 
     def check_binned_fit(self, name, l, o, meta):
         """binned fits on a histogram of a known law: documented status; location as documented; the returned (lambda, tau) is a local
